@@ -71,6 +71,10 @@ VARIANTS = [
                     "EpochType.is_warmup(epoch.config.type)"),
       note="step size adapts during burn-in", expect_rule="C11.R4"),
     # ---- twins
+    V("c11_t_other_post_init", "T", "liesel/goose/epoch.py", "EpochConfig",
+      lambda nd: isinstance(nd, ast.FunctionDef) and nd.name == "to_state",
+      lambda nd: stmt("def __post_init__(self):\n    pass") + [nd],
+      note="a __post_init__ on a class that has nothing to do with dual averaging"),
     V("c11_t_dispatch_membership", "T", "liesel/goose/kernel.py", "TransitionMixin.transition",
       *replace_expr("EpochType.is_adaptation(epoch.config.type)",
                     "epoch.config.type in (EpochType.FAST_ADAPTATION, EpochType.SLOW_ADAPTATION)"),
